@@ -383,9 +383,18 @@ void gen_atomic(Plan& p, Rng& r, uint64_t index)
     static const char* probes[] = {"create_track", "update", "remove_track", "create_root",
                                    "create_root_after", "create_sub", "create_sub_after", "set_name",
                                    "set_parent", "remove_crate", "add_track", "remove_from", "clear"};
-    const uint64_t n_plain = sizeof probes / sizeof *probes, n_set = 27;
-    uint64_t kind = index % (n_plain + n_set);
-    if (kind >= n_plain)
+    static const char* tprobes[] = {"t_add", "t_update", "t_remove", "t_setcol", "t_setcol", "p_add", "p_update",
+                                    "p_remove", "e_add", "e_remove", "e_clear"};
+    const uint64_t n_plain = sizeof probes / sizeof *probes, n_set = 27, n_table = sizeof tprobes / sizeof *tprobes;
+    uint64_t kind = index % (n_plain + n_set + n_table);
+    if (kind >= n_plain + n_set)
+    {
+        // 2.x table API on the same connection (actor T)
+        p.cfg.schema = 11 + (int)r.below(7);
+        p.cfg.table_api = true;
+        p.steps.push_back(mk(tprobes[kind - n_plain - n_set], r, 4, draw_size(r)));
+    }
+    else if (kind >= n_plain)
     {
         Step s = mk("set", r, 4, draw_size(r));
         uint64_t f = kind - n_plain;  // 0..24: fields, 25: hot_cue_at, 26: loop_at
